@@ -23,6 +23,7 @@
 //! moderate cardinalities.
 
 use crate::common::NumStdDev;
+use crate::error::Error;
 use crate::hll::composite_interpolation;
 use crate::hll::cubic_interpolation;
 use crate::hll::harmonic_numbers;
@@ -310,6 +311,37 @@ impl HipEstimator {
     /// Set the kxq1 register directly
     pub fn set_kxq1(&mut self, value: f64) {
         self.kxq1 = value;
+    }
+
+    /// Restore an estimator from the fields of a serialized image, rejecting values that no
+    /// sketch can produce (they would break the estimators' interpolation tables later on)
+    pub fn from_image(
+        lg_config_k: u8,
+        hip_accum: f64,
+        kxq0: f64,
+        kxq1: f64,
+        out_of_order: bool,
+    ) -> Result<Self, Error> {
+        let k = (1u64 << lg_config_k) as f64;
+        let valid = hip_accum.is_finite()
+            && hip_accum >= 0.0
+            && kxq0.is_finite()
+            && kxq1.is_finite()
+            && kxq0 >= 0.0
+            && kxq1 >= 0.0
+            && kxq0 + kxq1 > 0.0
+            && kxq0 + kxq1 <= k * (1.0 + 1e-9);
+        if !valid {
+            return Err(Error::deserial(format!(
+                "invalid estimator fields: hip_accum {hip_accum}, kxq0 {kxq0}, kxq1 {kxq1}"
+            )));
+        }
+        let mut estimator = HipEstimator::new(lg_config_k);
+        estimator.set_hip_accum(hip_accum);
+        estimator.set_kxq0(kxq0);
+        estimator.set_kxq1(kxq1);
+        estimator.set_out_of_order(out_of_order);
+        Ok(estimator)
     }
 }
 
